@@ -84,6 +84,26 @@ CHECKS["C04"] = dict(
     design="7/C04", technique="Coq proof (binding theorem + no-dial corollary over runs) + extracted-model correspondence",
     modelled="EnrichContext's client address (ASCII blanks), CheckSession (hand transcription); issuance side covered by C12.")
 
+CHECKS["C02"] = dict(
+    text="Symbolic-cryptography model (terms record algorithm and key of the MAC). Theorems for every presented term, time and IdP "
+         "behaviour: CheckPAACookie accepts iff compact JWS + HS256 + configured signing key + issuer rdpgw + time claims within "
+         "the 60 s leeway + IdP honours the embedded access token, and then sets exactly the token's host/address and the IdP's "
+         "subject; the IdP is consulted only after MAC/issuer/time passed; minted tokens expire at issue+300 s, are accepted up "
+         "to issue+360 s and rejected afterwards; rejection maps to E_PROXY_COOKIE_AUTHENTICATION_ACCESS_DENIED and ends the "
+         "tunnel. The real CheckPAACookie/GeneratePAAToken with real go-jose run against a scriptable IdP on token families, "
+         "every-position mutations and noise; an independent decoder (own base64/JSON/HMAC) maps each string to its term.",
+    design="7/C02", technique="Coq proof over symbolic tokens (iff characterisation, lifetime arithmetic) + extracted-model correspondence",
+    modelled="CheckPAACookie, GeneratePAAToken (symbolic); go-jose parsing, HMAC-SHA256, go-oidc UserInfo are assumed and exercised by correspondence only.")
+CHECKS["C15"] = dict(
+    text="Symbolic-cryptography model of user tokens. Theorems: UserInfo succeeds only for a token encrypted under the configured "
+         "encryption key and (when configured) signed under the configured signing key with an allowed algorithm, issuer rdpgw, "
+         "unexpired, and yields its subject; a token minted for U verifies within its lifetime and yields U; encrypt-only and "
+         "sign-and-encrypt tokens are mutually rejected; the endpoint's 405/400/403/200 mapping; allow-lists equal {HS256}, "
+         "{direct}, {A128CBC-HS256} (regenerated). The real GenerateUserToken/UserInfo/TokenInfo run on minted, cross-mode, "
+         "foreign-key, foreign-algorithm, expired and per-segment-mutated tokens.",
+    design="7/C15", technique="Coq proof over symbolic tokens + extracted-model correspondence",
+    modelled="GenerateUserToken, UserInfo, TokenInfo status mapping (symbolic); go-jose JWE/JWS and the ciphers are assumed; opacity of the token text is checked textually only.")
+
 NOT_YET = {}
 
 
